@@ -34,6 +34,7 @@ def run(ctx):
         "derived_ranges_compared": c.get("range_compared", 0), "bit_patterns_compared": c.get("fieldvec_compared", 0),
         "bit_patterns_skipped_invalid_base": c.get("field_invalid_base", 0),
         "mechanism_conformant_cases": c.get("mech_conformant", 0),
+        "environment_vectors": {k[12:]: v for k, v in sorted(c.items()) if k.startswith("vectors_env_")},
         "port_pairs": run.meta["portPairs"], "precedence_overlaps": run.meta["precedenceOverlaps"],
         "shapes_where_strict_reading_would_demand_an_error": strict_only,
         "contradictions_by_key": counts, "drift": run.drift(), "reflection": run.reflection_coverage(),
